@@ -455,7 +455,7 @@ def register(T, repo):
                     zint(E['arg_pos_map'].ln) + 1))
     lp = c.loop(2)
     lp.shapes['repl_mapped'] = lambda E: BodyList(E['args'].length())
-    T.empty_hints[(PAR + 'parse_def_macro', 723)] = 'ilist'
+    T.empty_hints[(PAR + 'parse_def_macro', 'arg_pos_map')] = 'ilist'
 
     # ----------------------------------------------------------- mathparser
     MP = 'yalafi.mathparser.MathParser.'
